@@ -298,14 +298,12 @@ func genModule(pkgs []*packages.Package, m *Module, byName map[string]*Module, o
 		}
 		// contracts of used modules of the same package stand for the methods they cover (see InvMethod)
 		if merged := e.Specs[target.PkgPath]; merged != nil {
-			imp := *merged
-			imp.Funcs = map[string]*spec.FuncSpec{}
-			for k, f := range merged.Funcs {
-				if f.Imported {
-					imp.Funcs[k] = f
-				}
+			se.Specs[target.PkgPath] = merged
+		}
+		for k, sp := range e.Specs { // contracts of used modules of other packages (common)
+			if se.Specs[k] == nil {
+				se.Specs[k] = sp
 			}
-			se.Specs[target.PkgPath] = &imp
 		}
 		for _, fn := range se.ExportedFuncs(target.PkgPath) {
 			if _, has := m.Spec.Funcs[fn.Name()]; has || fn.Name() == "_deploy" {
